@@ -409,5 +409,430 @@ theorem measRandom_commutes_Zq (t : Tab) (q p : Nat) (o : Bool) (hv : t.Valid) (
   show ((t.measRandom q p o).row (i + t.n)).x q = false
   rw [e]; exact decide_eq_false (by omega)
 
+/-! ### tensor product -/
+
+theorem sp_trunc_trunc (na nb : Nat) (u v : PRow) :
+    sp (na + nb) (u.truncCols na) (v.truncCols na) = sp na u v := by
+  unfold sp
+  rw [parityTo_add]
+  have h2 : parityTo nb (fun j => xor (((u.truncCols na).x (na + j)) && ((v.truncCols na).z (na + j)))
+      (((u.truncCols na).z (na + j)) && ((v.truncCols na).x (na + j)))) = false := by
+    apply parityTo_zero; intro j _
+    have : ¬ (na + j < na) := by omega
+    simp [PRow.truncCols, this]
+  rw [h2]
+  have h1 : parityTo na (fun j => xor (((u.truncCols na).x j) && ((v.truncCols na).z j))
+      (((u.truncCols na).z j) && ((v.truncCols na).x j))) = parityTo na (fun j => xor (u.x j && v.z j) (u.z j && v.x j)) := by
+    apply parityTo_congr; intro j hj; simp [PRow.truncCols, hj]
+  rw [h1]; simp
+
+theorem sp_shift_shift (na nb : Nat) (u v : PRow) :
+    sp (na + nb) (u.shiftCols na) (v.shiftCols na) = sp nb u v := by
+  unfold sp
+  rw [parityTo_add]
+  have h1 : parityTo na (fun j => xor (((u.shiftCols na).x j) && ((v.shiftCols na).z j))
+      (((u.shiftCols na).z j) && ((v.shiftCols na).x j))) = false := by
+    apply parityTo_zero; intro j hj; simp [PRow.shiftCols, hj]
+  rw [h1]
+  have h2 : parityTo nb (fun j => xor (((u.shiftCols na).x (na + j)) && ((v.shiftCols na).z (na + j)))
+      (((u.shiftCols na).z (na + j)) && ((v.shiftCols na).x (na + j)))) = parityTo nb (fun j => xor (u.x j && v.z j) (u.z j && v.x j)) := by
+    apply parityTo_congr; intro j _
+    have : ¬ (na + j < na) := by omega
+    simp [PRow.shiftCols, this]
+  rw [h2]; simp
+
+theorem sp_trunc_shift (na nb : Nat) (u v : PRow) :
+    sp (na + nb) (u.truncCols na) (v.shiftCols na) = false := by
+  unfold sp
+  apply parityTo_zero
+  intro j _
+  by_cases h : j < na <;> simp [PRow.truncCols, PRow.shiftCols, h]
+
+theorem sp_shift_trunc (na nb : Nat) (u v : PRow) :
+    sp (na + nb) (u.shiftCols na) (v.truncCols na) = false := by
+  rw [sp_comm]; exact sp_trunc_shift na nb v u
+
+/-- which block a row of `tensor2 a b` comes from, and its index there -/
+theorem tensor2_row (a b : Tab) (i : Nat) (hi : i < 2 * (a.n + b.n)) :
+    (∃ k, k < 2 * a.n ∧ (tensor2 a b).row i = (a.row k).truncCols a.n ∧
+        ((i < a.n ∧ k = i) ∨ (a.n + b.n ≤ i ∧ i < a.n + b.n + a.n ∧ k + b.n = i))) ∨
+    (∃ k, k < 2 * b.n ∧ (tensor2 a b).row i = (b.row k).shiftCols a.n ∧
+        ((a.n ≤ i ∧ i < a.n + b.n ∧ k + a.n = i) ∨ (a.n + b.n + a.n ≤ i ∧ k + a.n + a.n = i))) := by
+  unfold tensor2
+  simp only
+  by_cases h1 : i < a.n
+  · left; exact ⟨i, by omega, by simp [h1], Or.inl ⟨h1, rfl⟩⟩
+  · by_cases h2 : i < a.n + b.n
+    · right
+      exact ⟨i - a.n, by omega, by simp [h1, h2], Or.inl ⟨by omega, h2, by omega⟩⟩
+    · by_cases h3 : i < a.n + b.n + a.n
+      · left
+        exact ⟨i - (a.n + b.n) + a.n, by omega, by simp [h1, h2, h3], Or.inr ⟨by omega, h3, by omega⟩⟩
+      · right
+        exact ⟨i - (a.n + b.n) - a.n + b.n, by omega, by simp [h1, h2, h3], Or.inr ⟨by omega, by omega⟩⟩
+
+theorem tensor2_valid (a b : Tab) (ha : a.Valid) (hb : b.Valid) : (tensor2 a b).Valid := by
+  intro i k hi hk
+  have hn : (tensor2 a b).n = a.n + b.n := rfl
+  rw [hn] at hi hk
+  show sp (a.n + b.n) ((tensor2 a b).row i) ((tensor2 a b).row k) = decide (i + (a.n + b.n) = k ∨ k + (a.n + b.n) = i)
+  rcases tensor2_row a b i hi with ⟨ki, hki, ei, ci⟩ | ⟨ki, hki, ei, ci⟩ <;>
+  rcases tensor2_row a b k hk with ⟨kk, hkk, ek, ck⟩ | ⟨kk, hkk, ek, ck⟩ <;>
+  rw [ei, ek]
+  · rw [sp_trunc_trunc, ha ki kk hki hkk]
+    apply decide_eq_decide.mpr
+    rcases ci with ci | ci <;> rcases ck with ck | ck <;> omega
+  · rw [sp_trunc_shift]
+    apply (decide_eq_false _).symm
+    rcases ci with ci | ci <;> rcases ck with ck | ck <;> omega
+  · rw [sp_shift_trunc]
+    apply (decide_eq_false _).symm
+    rcases ci with ci | ci <;> rcases ck with ck | ck <;> omega
+  · rw [sp_shift_shift, hb ki kk hki hkk]
+    apply decide_eq_decide.mpr
+    rcases ci with ci | ci <;> rcases ck with ck | ck <;> omega
+
+/-! ### removing a qubit -/
+
+theorem sp_deleteCol (n q : Nat) (hq : q ≤ n) (u v : PRow)
+    (h : xor (u.x q && v.z q) (u.z q && v.x q) = false) :
+    sp n (u.deleteCol q) (v.deleteCol q) = sp (n + 1) u v := by
+  unfold sp
+  rw [← parityTo_delete n q (fun j => xor (u.x j && v.z j) (u.z j && v.x j)) hq h]
+  apply parityTo_congr
+  intro j _
+  simp only [PRow.deleteCol]
+  by_cases h1 : j < q <;> simp [h1]
+
+/-- the old index behind a row of `deletePair … d` on an `n`-qubit tableau -/
+def delSrc (n d i : Nat) : Nat := if i < d then i else if i + 1 < d + n then i + 1 else i + 2
+
+theorem deletePair_row (t : Tab) (q d i : Nat) : (t.deletePair q d).row i = (t.row (delSrc t.n d i)).deleteCol q := rfl
+
+theorem delSrc_facts (n d i : Nat) (hd : d < n) (hi : i < 2 * (n - 1)) :
+    delSrc n d i < 2 * n ∧ delSrc n d i ≠ d ∧ delSrc n d i ≠ d + n := by
+  unfold delSrc
+  split
+  · omega
+  · split <;> omega
+
+theorem delSrc_pair (n d i k : Nat) (hd : d < n) (hi : i < 2 * (n - 1)) (hk : k < 2 * (n - 1)) :
+    (delSrc n d i + n = delSrc n d k ∨ delSrc n d k + n = delSrc n d i) ↔ (i + (n - 1) = k ∨ k + (n - 1) = i) := by
+  unfold delSrc
+  split <;> split <;> (try split) <;> (try split) <;> omega
+
+/-- **core of `remove_qubit`**: from a valid tableau in which only the destabilizer partner of row `zRow` still has an X on
+    qubit `q`, multiplying the rows that have a Z on `q` by row `zRow` and deleting the pair and the column leaves a valid tableau -/
+theorem dropQubit_valid (t2 : Tab) (q zRow : Nat) (hv : t2.Valid) (hq : q < t2.n) (hz1 : t2.n ≤ zRow) (hz2 : zRow < 2 * t2.n)
+    (hx : ∀ i, i < 2 * t2.n → i + t2.n ≠ zRow → (t2.row i).x q = false) :
+    Valid (({ t2 with row := fun i =>
+        if i ≠ zRow ∧ i + t2.n ≠ zRow ∧ (t2.row i).z q then PRow.mul t2.n (t2.row zRow) (t2.row i) else t2.row i } : Tab).deletePair q
+      (zRow - t2.n)) := by
+  intro i k hi hk
+  have hn : ∀ r : Nat → PRow, (({ t2 with row := r } : Tab).deletePair q (zRow - t2.n)).n = t2.n - 1 := fun _ => rfl
+  rw [hn] at hi hk ⊢
+  have hd : zRow - t2.n < t2.n := by omega
+  obtain ⟨si, si1, si2⟩ := delSrc_facts t2.n (zRow - t2.n) i hd hi
+  obtain ⟨sk, sk1, sk2⟩ := delSrc_facts t2.n (zRow - t2.n) k hd hk
+  rw [deletePair_row, deletePair_row]
+  show sp (t2.n - 1) (PRow.deleteCol q _) (PRow.deleteCol q _) = _
+  generalize hI : delSrc t2.n (zRow - t2.n) i = I at *
+  generalize hK : delSrc t2.n (zRow - t2.n) k = K at *
+  have hIz : I ≠ zRow := by omega
+  have hKz : K ≠ zRow := by omega
+  have hId : I + t2.n ≠ zRow := by omega
+  have hKd : K + t2.n ≠ zRow := by omega
+  -- the rows of the intermediate tableau
+  have zx : (t2.row zRow).x q = false := hx zRow hz2 (by omega)
+  have rowX : ∀ J, J < 2 * t2.n → J + t2.n ≠ zRow →
+      ((if J ≠ zRow ∧ J + t2.n ≠ zRow ∧ (t2.row J).z q then PRow.mul t2.n (t2.row zRow) (t2.row J) else t2.row J) : PRow).x q = false := by
+    intro J hJ hJd
+    split
+    · simp [zx, hx J hJ hJd]
+    · exact hx J hJ hJd
+  have commZ : ∀ J, J < 2 * t2.n → J + t2.n ≠ zRow → sp t2.n (t2.row J) (t2.row zRow) = false := by
+    intro J hJ hJd
+    rw [hv J zRow hJ hz2]; exact decide_eq_false (by omega)
+  have commZ' : ∀ J, J < 2 * t2.n → J + t2.n ≠ zRow → sp t2.n (t2.row zRow) (t2.row J) = false := by
+    intro J hJ hJd; rw [sp_comm]; exact commZ J hJ hJd
+  have spRows : sp t2.n
+      (if I ≠ zRow ∧ I + t2.n ≠ zRow ∧ (t2.row I).z q then PRow.mul t2.n (t2.row zRow) (t2.row I) else t2.row I)
+      (if K ≠ zRow ∧ K + t2.n ≠ zRow ∧ (t2.row K).z q then PRow.mul t2.n (t2.row zRow) (t2.row K) else t2.row K)
+      = sp t2.n (t2.row I) (t2.row K) := by
+    split <;> split <;>
+      simp [sp_mul_left, sp_mul_right, sp_self, commZ I si hId, commZ K sk hKd, commZ' I si hId, commZ' K sk hKd]
+  have hn1 : t2.n - 1 + 1 = t2.n := by omega
+  have key := sp_deleteCol (t2.n - 1) q (by omega)
+    (if I ≠ zRow ∧ I + t2.n ≠ zRow ∧ (t2.row I).z q then PRow.mul t2.n (t2.row zRow) (t2.row I) else t2.row I)
+    (if K ≠ zRow ∧ K + t2.n ≠ zRow ∧ (t2.row K).z q then PRow.mul t2.n (t2.row zRow) (t2.row K) else t2.row K)
+    (by rw [rowX I si hId, rowX K sk hKd]; simp)
+  rw [hn1] at key
+  rw [key, spRows, hv I K si sk]
+  apply decide_eq_decide.mpr
+  rw [← hI, ← hK]
+  exact delSrc_pair t2.n (zRow - t2.n) i k hd hi hk
+
+/-- after a random-outcome measurement only the destabilizer partner of the pivot still has an X on the measured qubit -/
+theorem measRandom_x (t : Tab) (q p : Nat) (o : Bool) (hx : (t.row p).x q = true) (i : Nat) (hip : i + t.n ≠ p) :
+    ((t.measRandom q p o).row i).x q = false := by
+  by_cases h1 : i = p
+  · subst h1; simp [measRandom, Zq]
+  · rw [mr_row_o t q p i o h1 hip]
+    unfold addIf
+    cases h : (t.row i).x q <;> simp [h, hx]
+
+/-- the dual pair of row sums of the deterministic branch of `remove_qubit`: `D_b ← D_a·D_b`, `S_a ← S_b·S_a` -/
+def pairSum (t : Tab) (a b : Nat) : Tab := (t.rowSum a b).rowSum (b + t.n) (a + t.n)
+
+theorem pairSum_n (t : Tab) (a b : Nat) : (t.pairSum a b).n = t.n := rfl
+
+theorem pairSum_row (t : Tab) (a b : Nat) (hab : a ≠ b) (ha : a < t.n) (hb : b < t.n) (i : Nat) :
+    (t.pairSum a b).row i =
+      if i = a + t.n then PRow.mul t.n (t.row (b + t.n)) (t.row (a + t.n))
+      else if i = b then PRow.mul t.n (t.row a) (t.row b) else t.row i := by
+  unfold pairSum rowSum
+  simp only [upd]
+  have h1 : b + t.n ≠ b := by omega
+  have h2 : a + t.n ≠ b := by omega
+  have h3 : t.n ≠ 0 := by omega
+  have h4 : b ≠ a + t.n := by omega
+  by_cases e1 : i = a + t.n
+  · simp [e1, h1, h2, h3]
+  · by_cases e2 : i = b
+    · simp [e2, h4]
+    · simp [e1, e2]
+
+theorem pairSum_valid (t : Tab) (a b : Nat) (hab : a ≠ b) (ha : a < t.n) (hb : b < t.n) (hv : t.Valid) :
+    (t.pairSum a b).Valid := by
+  intro i k hi hk
+  rw [pairSum_n] at hi hk ⊢
+  rw [pairSum_row t a b hab ha hb i, pairSum_row t a b hab ha hb k]
+  have H : ∀ x y, x < 2 * t.n → y < 2 * t.n → sp t.n (t.row x) (t.row y) = decide (x + t.n = y ∨ y + t.n = x) := hv
+  have ha2 : a < 2 * t.n := by omega
+  have hb2 : b < 2 * t.n := by omega
+  have han : a + t.n < 2 * t.n := by omega
+  have hbn : b + t.n < 2 * t.n := by omega
+  by_cases i1 : i = a + t.n <;> by_cases k1 : k = a + t.n
+  · subst i1; subst k1
+    simp only [if_true]
+    rw [sp_self]; exact (decide_eq_false (by omega)).symm
+  · by_cases k2 : k = b
+    · subst i1; subst k2
+      simp only [if_true, k1, if_false]
+      rw [sp_mul_left, sp_mul_right, sp_mul_right, H _ _ hbn ha2, H _ _ hbn hk, H _ _ han ha2, H _ _ han hk]
+      have e1 : decide (k + t.n + t.n = a ∨ a + t.n = k + t.n) = false := decide_eq_false (by omega)
+      have e2 : decide (k + t.n + t.n = k ∨ k + t.n = k + t.n) = true := decide_eq_true (by omega)
+      have e3 : decide (a + t.n + t.n = a ∨ a + t.n = a + t.n) = true := decide_eq_true (by omega)
+      have e4 : decide (a + t.n + t.n = k ∨ k + t.n = a + t.n) = false := decide_eq_false (by omega)
+      rw [e1, e2, e3, e4]
+      simp
+    · subst i1
+      simp only [if_true, k1, k2, if_false]
+      rw [sp_mul_left, H _ _ hbn hk, H _ _ han hk]
+      have e1 : decide (b + t.n + t.n = k ∨ k + t.n = b + t.n) = false := decide_eq_false (by omega)
+      rw [e1]; simp
+  · by_cases i2 : i = b
+    · subst k1; subst i2
+      simp only [if_true, i1, if_false]
+      rw [sp_mul_left, sp_mul_right, sp_mul_right, H _ _ ha2 hbn, H _ _ ha2 han, H _ _ hi hbn, H _ _ hi han]
+      have e1 : decide (a + t.n = i + t.n ∨ i + t.n + t.n = a) = false := decide_eq_false (by omega)
+      have e2 : decide (a + t.n = a + t.n ∨ a + t.n + t.n = a) = true := decide_eq_true (by omega)
+      have e3 : decide (i + t.n = i + t.n ∨ i + t.n + t.n = i) = true := decide_eq_true (by omega)
+      have e4 : decide (i + t.n = a + t.n ∨ a + t.n + t.n = i) = false := decide_eq_false (by omega)
+      rw [e1, e2, e3, e4]
+      simp
+    · subst k1
+      simp only [if_true, i1, i2, if_false]
+      rw [sp_mul_right, H _ _ hi hbn, H _ _ hi han]
+      have e1 : decide (i + t.n = b + t.n ∨ b + t.n + t.n = i) = false := decide_eq_false (by omega)
+      rw [e1]; simp
+  · simp only [i1, k1, if_false]
+    by_cases i2 : i = b <;> by_cases k2 : k = b
+    · subst i2; subst k2
+      simp only [if_true]
+      rw [sp_self]; exact (decide_eq_false (by omega)).symm
+    · subst i2
+      simp only [if_true, k2, if_false]
+      rw [sp_mul_left, H _ _ ha2 hk, H _ _ hi hk]
+      have e1 : decide (a + t.n = k ∨ k + t.n = a) = false := decide_eq_false (by omega)
+      rw [e1]; simp
+    · subst k2
+      simp only [if_true, i2, if_false]
+      rw [sp_mul_right, H _ _ hi ha2, H _ _ hi hk]
+      have e1 : decide (i + t.n = a ∨ a + t.n = i) = false := decide_eq_false (by omega)
+      rw [e1]; simp
+    · simp only [i2, k2, if_false]
+      exact H i k hi hk
+
+/-- invariant of the destabilizer-combining loop of the deterministic branch of `remove_qubit` -/
+structure CombInv (n q om : Nat) (rem : List Nat) (acc : Tab) : Prop where
+  valid : acc.Valid
+  n_eq : acc.n = n
+  xom : (acc.row om).x q = true
+  xoth : ∀ i, i < 2 * n → i ≠ om → i ∉ rem → (acc.row i).x q = false
+  xrem : ∀ i, i ∈ rem → (acc.row i).x q = true
+
+theorem comb_fold (n q om : Nat) (hom : om < n) (rest : List Nat) (hlt : ∀ i, i ∈ rest → i < n) (hne : ∀ i, i ∈ rest → i ≠ om)
+    (hnd : rest.Nodup) (acc : Tab) (h : CombInv n q om rest acc) :
+    CombInv n q om [] (rest.foldl (fun acc row => (acc.rowSum om row).rowSum (row + n) (om + n)) acc) := by
+  induction rest generalizing acc with
+  | nil => exact h
+  | cons r tl ih =>
+    simp only [List.foldl]
+    have hr : r < n := hlt r List.mem_cons_self
+    have hro : r ≠ om := hne r List.mem_cons_self
+    have hrt : r ∉ tl := (List.nodup_cons.mp hnd).1
+    apply ih (fun i hi => hlt i (List.mem_cons_of_mem _ hi)) (fun i hi => hne i (List.mem_cons_of_mem _ hi))
+      (List.nodup_cons.mp hnd).2
+    have hn := h.n_eq
+    have e : (acc.rowSum om r).rowSum (r + n) (om + n) = acc.pairSum om r := by
+      unfold pairSum; rw [hn]
+    rw [e]
+    have row := pairSum_row acc om r (Ne.symm hro) (hn ▸ hom) (hn ▸ hr)
+    refine ⟨pairSum_valid acc om r (Ne.symm hro) (hn ▸ hom) (hn ▸ hr) h.valid, hn, ?_, ?_, ?_⟩
+    · rw [row om]
+      have h1 : om ≠ om + acc.n := by omega
+      have h0 : acc.n ≠ 0 := by omega
+      simp [h1, h0, Ne.symm hro, h.xom]
+    · intro i hi hio hit
+      rw [row i, hn]
+      by_cases e1 : i = om + n
+      · simp only [e1, if_true, mul_x]
+        have a1 := h.xoth (r + n) (by omega) (by omega) (by
+          intro hm; have := hlt (r + n) hm; omega)
+        have a2 := h.xoth (om + n) (by omega) (by omega) (by
+          intro hm; have := hlt (om + n) hm; omega)
+        simp [a1, a2]
+      · by_cases e2 : i = r
+        · subst e2
+          simp only [e1, if_false, if_true, mul_x]
+          have a1 := h.xom
+          have a2 := h.xrem i List.mem_cons_self
+          rw [a1, a2]; rfl
+        · simp only [e1, e2, if_false]
+          exact h.xoth i hi hio (by
+            intro hm
+            rcases List.mem_cons.mp hm with hm | hm
+            · exact e2 hm
+            · exact hit hm)
+    · intro i hi
+      rw [row i, hn]
+      have hin : i < n := hlt i (List.mem_cons_of_mem _ hi)
+      have e1 : i ≠ om + n := by omega
+      have e2 : i ≠ r := fun he => hrt (he ▸ hi)
+      simp only [e1, e2, if_false]
+      exact h.xrem i (List.mem_cons_of_mem _ hi)
+
+theorem findFrom_none (lo hi : Nat) (f : Nat → Bool) (h : findFrom lo hi f = none) (i : Nat) (h1 : lo ≤ i) (h2 : i < hi) :
+    f i = false := by
+  unfold findFrom at h
+  cases hl : (List.range hi).filter (fun i => decide (lo ≤ i) && f i) with
+  | nil =>
+    cases hf : f i
+    · rfl
+    · have : i ∈ (List.range hi).filter (fun i => decide (lo ≤ i) && f i) := by
+        simp only [List.mem_filter, List.mem_range, Bool.and_eq_true, decide_eq_true_eq]
+        exact ⟨h2, h1, hf⟩
+      rw [hl] at this; cases this
+  | cons a l => rw [hl] at h; simp at h
+
+/-- **`remove_qubit` keeps the tableau valid** (every n ≥ 1, every qubit, every outcome, all three internal cases) -/
+theorem removeQubit_valid (t t' : Tab) (q : Nat) (o : Bool) (hq : q < t.n) (hv : t.Valid)
+    (h : t.removeQubit q o = .ok t') : t'.Valid := by
+  unfold removeQubit at h
+  simp only at h
+  cases hp : t.pivot q with
+  | some p =>
+    obtain ⟨p1, p2, p3⟩ := pivot_spec t q p hp
+    have hpz : p ≠ 0 := by omega
+    simp only [zMeasure, hp, hpz, ne_eq, not_false_eq_true, if_true] at h
+    injection h with h
+    rw [← h]
+    have v1 := measRandom_valid t q p o hv hq p1 p2 p3
+    exact dropQubit_valid (t.measRandom q p o) q p v1 hq p1 p2
+      (fun i _ hip => measRandom_x t q p o p3 i hip)
+  | none =>
+    simp only [zMeasure, hp, ne_eq, not_true_eq_false, if_false] at h
+    cases hf : filterTo t.n (fun i => (t.row i).x q) with
+    | nil => rw [hf] at h; simp at h
+    | cons om rest =>
+      rw [hf] at h
+      simp only at h
+      injection h with h
+      rw [← h]
+      -- facts about the filtered list
+      have hmem : ∀ i, i ∈ om :: rest → i < t.n ∧ (t.row i).x q = true := by
+        intro i hi
+        rw [← hf] at hi
+        simp only [filterTo, List.mem_filter, List.mem_range] at hi
+        exact hi
+      have hnd : (om :: rest).Nodup := by
+        rw [← hf]; unfold filterTo
+        exact List.Nodup.sublist List.filter_sublist List.nodup_range
+      have hom := hmem om List.mem_cons_self
+      have hstab : ∀ i, t.n ≤ i → i < 2 * t.n → (t.row i).x q = false :=
+        fun i h1 h2 => findFrom_none _ _ _ hp i h1 h2
+      have inv0 : CombInv t.n q om rest t := by
+        refine ⟨hv, rfl, hom.2, ?_, fun i hi => (hmem i (List.mem_cons_of_mem _ hi)).2⟩
+        intro i hi hio hir
+        by_cases hin : i < t.n
+        · cases hx : (t.row i).x q
+          · rfl
+          · exfalso
+            have : i ∈ om :: rest := by
+              rw [← hf]; simp only [filterTo, List.mem_filter, List.mem_range]; exact ⟨hin, hx⟩
+            rcases List.mem_cons.mp this with e | e
+            · exact hio e
+            · exact hir e
+        · exact hstab i (by omega) hi
+      have inv := comb_fold t.n q om hom.1 rest (fun i hi => (hmem i (List.mem_cons_of_mem _ hi)).1)
+        (fun i hi he => (List.nodup_cons.mp hnd).1 (he ▸ hi)) (List.nodup_cons.mp hnd).2 t inv0
+      generalize rest.foldl (fun acc row => (acc.rowSum om row).rowSum (row + t.n) (om + t.n)) t = t2 at inv ⊢
+      have hn2 := inv.n_eq
+      have key := dropQubit_valid t2 q (om + t.n) inv.valid (hn2 ▸ hq) (by omega) (by omega)
+        (fun i hi hio => inv.xoth i (hn2 ▸ hi) (by omega) (by simp))
+      simp only [hn2] at key ⊢
+      exact key
+
+theorem removeQubit?_valid (t t' : Tab) (q : Nat) (o : Bool) (hv : t.Valid) (h : t.removeQubit? q o = .ok t') : t'.Valid := by
+  unfold removeQubit? at h
+  split at h
+  · next hq => exact removeQubit_valid t t' q o hq hv h
+  · cases h
+
+theorem tnorm_row (t : Tab) (i : Nat) (hi : i < 2 * t.n) : EqOn t.n (t.norm.row i) (t.row i) := by
+  have : t.norm.row i = (t.row i).norm t.n := by
+    simp [Tab.norm, Tab.lookupRow, Array.getD, hi]
+  rw [this]
+  refine ⟨fun j hj => ?_, rfl, rfl⟩
+  simp only [PRow.norm]
+  constructor <;> (unfold lookup1; simp [Array.getD, hj])
+
+theorem tnorm_valid (t : Tab) (hv : t.Valid) : t.norm.Valid := by
+  intro i k hi hk
+  have hn : t.norm.n = t.n := rfl
+  rw [hn] at hi hk ⊢
+  rw [sp_eqOn _ _ _ _ _ (tnorm_row t i hi) (tnorm_row t k hk)]
+  exact hv i k hi hk
+
+theorem partialTrace_go_valid (rem : List Nat) (t t' : Tab) (os : List Bool) (hv : t.Valid)
+    (h : partialTrace.go t rem os = .ok t') : t'.Valid := by
+  induction rem generalizing t os with
+  | nil => simp [partialTrace.go] at h; rw [← h]; exact hv
+  | cons q rest ih =>
+    simp only [partialTrace.go] at h
+    cases hr : t.removeQubit? q (os.headD false) with
+    | error e => rw [hr] at h; simp at h
+    | ok t1 =>
+      rw [hr] at h
+      simp only at h
+      exact ih t1.norm _ (tnorm_valid t1 (removeQubit?_valid t t1 q _ hv hr)) h
+
+/-- **`partial_trace` keeps the tableau valid** -/
+theorem partialTrace_valid (t t' : Tab) (keep : List Nat) (os : List Bool) (hv : t.Valid)
+    (h : t.partialTrace keep os = .ok t') : t'.Valid := by
+  unfold partialTrace at h
+  exact partialTrace_go_valid _ t t' os hv h
+
 end Tab
 end Graphiq
